@@ -12,6 +12,32 @@ from .common import BUILD, VERIF, REPO
 KBUILD = os.path.join(BUILD, 'kani')
 
 
+class _Done:
+    def __init__(self, rc, out, err):
+        self.returncode, self.stdout, self.stderr = rc, out, err
+
+
+def run_group(cmd, cwd, env, timeout):
+    """run a command in its own process group; on timeout kill the whole group (cargo-kani leaves cbmc children
+    behind otherwise). Returns None on timeout."""
+    import signal
+    pr = subprocess.Popen(cmd, cwd=cwd, env=env, stdout=subprocess.PIPE, stderr=subprocess.PIPE, text=True,
+                          start_new_session=True)
+    try:
+        out, err = pr.communicate(timeout=timeout)
+        return _Done(pr.returncode, out, err)
+    except subprocess.TimeoutExpired:
+        try:
+            os.killpg(pr.pid, signal.SIGKILL)
+        except OSError:
+            pass
+        try:
+            pr.communicate(timeout=10)
+        except Exception:
+            pass
+        return None
+
+
 def prepare_crate(unit):
     """copy /verif/kani/<unit> to .build/kani/<unit>/crate with path deps pointed at REPO"""
     src = os.path.join(VERIF, 'kani', unit)
@@ -60,9 +86,8 @@ def run_kani(ctx, unit, harness=(), flags=(), rustflags=None, jobs=16, harness_t
         env['RUSTFLAGS'] = rustflags
     t0 = time.time()
     ctx.cmds.append(('RUSTFLAGS=%r ' % rustflags if rustflags else '') + ' '.join(cmd).replace(out_json, '<out.json>'))
-    try:
-        p = subprocess.run(cmd, cwd=crate, env=env, capture_output=True, text=True, timeout=wall_timeout)
-    except subprocess.TimeoutExpired:
+    p = run_group(cmd, cwd=crate, env=env, timeout=wall_timeout)
+    if p is None:
         ctx.undecide('kani %s/%s: wall-clock timeout %ds' % (unit, tag, wall_timeout))
         return None
     wall = time.time() - t0
@@ -201,9 +226,8 @@ def concrete_playback(unit, crate, env, hid, flags, features, no_default_feature
     if no_default_features:
         cmd += ['--no-default-features']
     cmd += [f for f in flags]
-    try:
-        p = subprocess.run(cmd, cwd=crate, env=env, capture_output=True, text=True, timeout=420)
-    except subprocess.TimeoutExpired:
+    p = run_group(cmd, cwd=crate, env=env, timeout=300)
+    if p is None:
         return None, None
     out = p.stdout
     m = re.search(r'(?s)(#\[test\]\s*fn kani_concrete_playback_.*?\n\})', out)
